@@ -75,6 +75,17 @@ def accessors(h):
             called += 1
         except Exception:  # noqa: BLE001, S112
             continue
+    # histogram() derives a plain-count aggregator: a pure operation whose result must own all of its nodes
+    derived = None
+    if not huge:
+        try:  # (a Select answers a missing attribute with KeyError, so not even hasattr can be used on it)
+            derived = h.histogram()
+        except Exception:  # noqa: BLE001  (existence and correctness of histogram() are not this property's business)
+            derived = None
+    if derived is not None and isinstance(derived, lib().Container):
+        sh = walk.identity_set(h) & walk.identity_set(derived)
+        require(not sh, "shared-mutable-state", lambda: f"{h.name}.histogram() shares mutable state with the histogram it was derived from: {walk.shared(h, derived)[:4]}", {"op": "histogram"})
+        called += 1
     return called
 
 
